@@ -26,6 +26,7 @@ def _knobs(rng, *, conc=True):
         "clock_slow": rng.random() < 0.4,
         "symlink": rng.random() < 0.1,
         "gc": rng.choice([None, None, None, 0.02, 0.15]),
+        "stall": rng.choice([None, None, 0.3]),
     }
 
 
